@@ -21,7 +21,8 @@ func init() {
 			"R4 the CLI and library pipelines agree: same parser mode, same imports.Options literal, format.Node before imports.Process, and main.cleanupFilePos and patch.cleanupFilePos have the same operation fingerprint (calls, comparisons, constants). " +
 			"NOT decided: that applying the printed diff reproduces the bytes (pkg/diff is third-party); behaviour of the boundary functions themselves." +
 			" R7 the library leaves an unmatched file as the command does." +
-			" R4 also: what File.Apply returns for a rewritten file is the imports.Process result.",
+			" R4 also: what File.Apply returns for a rewritten file is the imports.Process result." +
+			" R8 one FileSet for patch and targets in both pipelines; R9 every bufio.Writer made in the command or library is flushed on every exit; R10 ReadLine's isPrefix is looked at.",
 		Trusted: append([]string{"boundary table: packages fmt strings bytes sort strconv unicode errors reflect io bufio log go/* path/filepath(pure part) multierr intervalset astutil pkg/diff go-flags x/tools/imports never create, modify or remove files through the functions gopatch calls; imports.Process is given FormatOnly:true"},
 			commonTrusted...),
 		Assumptions: commonAssumptions,
@@ -50,6 +51,12 @@ func runC12(r *an.Run) {
 	relabel(r, "R4-api-returns-src-unchanged", "R7-library-leaves-an-unmatched-file-as-the-command-does")
 	// both pipelines advance the astdiff snapshot after every change (the library copy must not fall behind)
 	snapshotAdvances(r, "R4-cli-and-library-agree")
+	// the library positions what it adds and deletes in the table the command uses: one FileSet for the
+	// patch and the targets in both pipelines
+	oneFileSet(r, "R8-one-position-table-in-both-pipelines")
+	// what --print-only prints is what the default mode writes: also when another file of the run failed
+	bufferedOutputIsFlushed(r, "R9-buffered-output-is-flushed-on-every-exit")
+	readLineKeepsLongLines(r, "R10-the-lines-diffed-are-the-lines-of-the-content")
 }
 
 func c12NoMutationInDryRun(r *an.Run, m *runModel) {
@@ -364,8 +371,20 @@ func c12Descriptions(r *an.Run, m *runModel) {
 					}
 				}
 				terminal = append(terminal, use{x, v})
+			case *ssa.BinOp:
+				// a description built into a longer string (filename + ":" + c) is still the description
+				if x.Op == token.ADD {
+					follow(x, top)
+				}
 			case ssa.CallInstruction:
 				if an.IsCallTo(x, "builtin:len") {
+					continue
+				}
+				// collected or joined before it is printed: the list / the string built is followed on
+				if an.IsCallTo(x, "builtin:append", "strings.Join", "strings.Repeat", "strings.TrimSpace", "strings.TrimRight", "strings.TrimSuffix", "fmt.Sprintf", "fmt.Sprint", "fmt.Sprintln") {
+					if val := x.Value(); val != nil {
+						follow(val, top)
+					}
 					continue
 				}
 				t := top
@@ -566,8 +585,12 @@ func c12Siblings(r *an.Run, m *runModel) {
 	}
 	// parser mode
 	var apiParse *ssa.Call
-	for _, c := range an.CallsTo(api, parserParse) {
-		apiParse = c.(*ssa.Call)
+	for _, g := range helperGroup(api, 2) {
+		for _, c := range an.CallsTo(g, parserParse) {
+			if call, ok := c.(*ssa.Call); ok && apiParse == nil {
+				apiParse = call
+			}
+		}
 	}
 	if apiParse != nil {
 		a, aok := an.ConstInt(m.parse.Call.Args[3])
